@@ -21,7 +21,7 @@ mv /tmp/seed_demo_$id.rs tests/seed_demo.rs
 echo "demo WITHOUT change: $without"
 echo "demo WITH change:    $with"
 echo "suite WITH change:   $suite"
-unset RUSTFLAGS; cd /verif
+unset RUSTFLAGS; cd "$V"
 if [ -n "$(git -C "$REPO" status --porcelain --untracked-files=no)" ]; then echo "$REPO is dirty"; exit 2; fi
 git -C "$REPO" apply $out/patch.diff || { echo "patch does not apply to $REPO"; exit 2; }
 res=""
